@@ -752,6 +752,7 @@ def witness_pushw_case():
 # =================================================================== deny-sweep
 
 SW_DENY = G.DATA + 0x800          # [DATA+0x800, DATA+0x1000): no access for anybody
+SW_PRIV = G.DATA + 0x400          # [DATA+0x400, DATA+0x500): privileged-only
 
 
 def gen_deny_sweep(item, rng, tier):
@@ -764,6 +765,7 @@ def gen_deny_sweep(item, rng, tier):
     mpu = [(0, 0, 0)] * 12
     mpu[0] = (1 | 31 << 1, 0, 3 << 8)
     mpu[DREG] = (1 | 10 << 1, SW_DENY, rng.getrandbits(6) | rng.getrandbits(1) << 12)          # AP = 0
+    mpu[DREG - 1] = (1 | 7 << 1, SW_PRIV, 1 << 8 | rng.getrandbits(6))                           # AP = 1
     devices = G.std_devices(high=False)
     G.set_data(devices[2], 0x700, bytes(rng.getrandbits(8) for _ in range(0x200)))
     mode = rng.choice(['usr', 'svc', 'svc', 'sys', 'irq'])
@@ -771,7 +773,7 @@ def gen_deny_sweep(item, rng, tier):
     sys['sctlr'] = G.sctlr_value(m=1, a=0, u=1, te=thumb, v=0, br=1, ee=0)
     regs = {'cpsr': G.random_cpsr(rng, cfg, mode=mode, thumb=thumb, e=0) | 0xC0, 'pc': G.CODE, 'sys': sys, 'R': G.random_regfile(rng, cfg), 'spsr': G.random_spsrs(rng, cfg, valid=True)}
     # pointers around the lower edge of the denied block: word-aligned, so that multi-word transfers start allowed and run into it, or start inside it
-    ptrs = [SW_DENY + 4 * d for d in (-8, -4, -3, -2, -1, 0, 0, 1, 2, 4)] + [SW_DENY + 0x7F8, SW_DENY + 0x7FC, 4, 8, 0x10]
+    ptrs = [SW_DENY + 4 * d for d in (-8, -4, -3, -2, -1, 0, 0, 1, 2, 4)] + [SW_DENY + 0x7F8, SW_DENY + 0x7FC, 4, 8, 0x10, SW_PRIV + 0x10, SW_PRIV + 0x41]
     force = {'it': 0, 'ctx': 9, 'thumb': thumb, 'ptr_regs': ptrs}
     core = {'config': cfg, 'devices': devices, 'regs': regs, 'words': src['words'], 'force': force, 'no_poke': []}
     return {'scenario': 'deny_sweep', 'cores': [core], 'events': [], 'max_ticks': len(src['words']) + 2, 'stop_at_done': False, 'thumb': thumb}
@@ -792,6 +794,12 @@ class DenySweepObserver:
         if rec['what'] != 'step' or rec['nie'] or rec['exc']:
             return
         kinds = [k for t, k in self.mon.taken if t == rec['tick']]
+        pc0 = rec['pre_pc']
+        if (SW_DENY <= pc0 < SW_DENY + 0x800 or (SW_PRIV <= pc0 < SW_PRIV + 0x100 and (rec['pre'][1] & 0x1F) == 0x10)) and not any(k in ('dabt', 'pabt') for k in kinds):
+            # an instruction fetch is an access like any other: from a block the current privilege may not read it must abort
+            b.violate('mpu.deny', 'fetch', 'fetch_not_denied', 'instruction at %#x executed in mode %#x although the MPU denies that address (entries taken: %s)' % (
+                pc0, rec['pre'][1] & 0x1F, kinds))
+            return
         if kinds != ['dabt']:
             return
         r = arm.registers
@@ -803,6 +811,8 @@ class DenySweepObserver:
             return
         priv = (rec['pre'][1] & 0x1F) != 0x10
         dec, _ = MPU.decide(self.regions, 1, 1, r.dfar, priv, bool((r.dfsr.value >> 11) & 1))
+        if dec == 'ok' and priv:
+            dec, _ = MPU.decide(self.regions, 1, 1, r.dfar, False, bool((r.dfsr.value >> 11) & 1))       # LDRT/STRT-family: User permissions in a privileged mode
         if dec == 'ok':
             b.violate('mpu.deny', site, 'dfar_not_denied', '%s (word %#x) aborted with DFAR %#x (DFSR %#x), which the MPU model allows' % (name, arm.opcode, r.dfar, r.dfsr.value))
             return
